@@ -780,7 +780,7 @@ theorem globFiles_eq_nil_iff (fs : FS) (root d : Comps) (base : String)
       (∀ real, fs.rootOpenDir root d ≠ .ok real) ∨
         ∃ real, fs.rootOpenDir root d = .ok real ∧ globNames fs real base = [] := by
   rw [globFiles_snoc fs root d base hd hm, List.map_eq_nil_iff, rootReadDir_eq, rootOpenDir_eq]
-  cases hw : fs.rootWalk root linkFuel root d with
+  cases hw : fs.rootWalk root linkFuel 0 root d with
   | error e => simp
   | ok real =>
     simp only []
